@@ -120,9 +120,12 @@ def build_fault_corpus(tier):
     # invalid arguments (beyond the three failure kinds C20 lists): whatever the library raises, it must raise
     # promptly, leave no worker and leave the caller's arrays alone
     for i, inv in enumerate(["W_gt_T", "K_gt_windows", "nan_data", "limit0", "K1", "beta_wrong_length",
-                             "mismatched_columns"]):
+                             "mismatched_columns", "lambda_nested_list", "lambda_none", "lambda_string"]):
         c = runs.gen_config(rng, 3500 + i, tier)
         c.update(eps=0, scale=1.0, invalid=inv, fe="joint" if inv == "mismatched_columns" else c["fe"])
+        c["hang_limit_s"] = 300
+        if inv.startswith("lambda_"):
+            c.update(P=[1, 3, 2][i % 3], mp=bool(i % 2), lam_form="float")
         if c["fe"] == "joint" and len(c["lens"]) < 2:
             c["lens"] = [c["lens"][0], c["lens"][0] + 3]
         if c["fe"] == "single":
